@@ -1412,3 +1412,53 @@ RULES.setdefault("C10", []).append(Rule("C10.R20", "the structure handed to json
                                         "the emitted PROV-JSON carries its prefix and bundle blocks whatever the logging configuration"))
 RULES.setdefault("C01", []).append(Rule("C01.R22", "the structure handed to json.dump is never consumed on the way (shared with C10.R20)", 1, json_structure_not_consumed, "F-OWN",
                                         "what is written is what was encoded"))
+
+
+# ------------------------------------------------------------------------------------------ C11.R23: children of an element are not all elements
+def xml_child_nodes_rule(ctx: Ctx, rule):
+    """Iterating an lxml element yields its comments and processing instructions too; their `.tag` is a function, and
+    `etree.QName(node)` raises a built-in ValueError for them.  Comments are stripped before the tree is read, processing
+    instructions are not.  In the XML reader, a loop over the children of an element that takes `etree.QName(child)` (or reads
+    `child.tag` as a name) first leaves non-element nodes aside: `isinstance(child.tag, str)` (guard clause or enclosing test), or
+    the loop walks `iterchildren(tag=etree.Element)` / `iterchildren("*")`."""
+    res = RuleResult()
+    n_loops = 0
+    for q, fi in ctx.p.functions.items():
+        if fi.module != XM or isinstance(fi.node, ast.Lambda):
+            continue
+        for lp in walk_function(fi.node):
+            if not (isinstance(lp, ast.For) and isinstance(lp.target, ast.Name)):
+                continue
+            v = lp.target.id
+            qn = [c for b in lp.body for c in ast.walk(b) if isinstance(c, ast.Call) and isinstance(c.func, ast.Attribute) and c.func.attr == "QName" and c.args and isinstance(c.args[0], ast.Name) and c.args[0].id == v]
+            if not qn:
+                continue
+            n_loops += 1
+            it = lp.iter
+            filtered_iter = isinstance(it, ast.Call) and call_name(it) in ("iterchildren", "iter", "findall", "iterfind", "xpath") and (
+                any(isinstance(a, ast.Constant) and a.value in ("*", "./*", "{*}*") for a in it.args) or any(k.arg == "tag" for k in it.keywords) or any("Element" in norm(a) for a in it.args))
+            guard = None
+            for st in lp.body:
+                if any(c is x for c in qn for x in ast.walk(st)) and guard is None and not isinstance(st, ast.If):
+                    break
+                if isinstance(st, ast.If):
+                    t = norm(st.test)
+                    if ("%s.tag" % v) in t and ("isinstance" in t or "Comment" in t or "ProcessingInstruction" in t or "PI" in t or "callable" in t):
+                        leaves = st.body and isinstance(st.body[-1], (ast.Continue, ast.Return, ast.Break, ast.Raise))
+                        encloses = all(any(c is x for b in st.body for x in ast.walk(b)) for c in qn)
+                        if leaves or encloses:
+                            guard = st
+                            break
+            ok = filtered_iter or guard is not None
+            res.ob("%s: for %s in %s: etree.QName(%s) is taken only for element nodes: %s" % (short(q) if q.count(".") > 2 else q, v, norm(it)[:30], v, ok))
+            if not ok:
+                res.fail(rule.id, "non-element-child-named::%s::%s" % (q, v), ctx.loc(q, qn[0]),
+                         "%s takes etree.QName(%s) of every child of `%s`: a processing instruction among them makes lxml raise a built-in ValueError" % (short(q) if q.count(".") > 2 else q, v, norm(it)[:30]),
+                         '<prov:document ..><?generator tool="X"?><prov:entity prov:id="ex:e1"/></prov:document>: loading raises a built-in ValueError (Invalid input tag of type ...), not a library error')
+    if n_loops < 2:
+        raise AnalysisError("the loops over child elements of the XML reader were not found (%d)" % n_loops)
+    return res
+
+
+RULES.setdefault("C11", []).append(Rule("C11.R23", "the XML reader names only element nodes: processing instructions (and comments) among the children are left aside", 2, xml_child_nodes_rule, "F-NULL",
+                                        "well-formed PROV-XML carrying processing instructions loads (they carry no PROV content), or is refused with a library error"))
